@@ -135,6 +135,11 @@ def exceeded_implies_bound(test: ast.AST, restarts_src: str, max_src: str) -> Op
     return False
 
 
+def _reaches_without(cfg, start, target, gate) -> bool:
+    """is target reachable from start on a path that avoids gate"""
+    return target.id in cfg.reach([start], blocked=[gate], include_starts=False)
+
+
 def run(ctx) -> None:
     ctx.explanation = (
         "Path rules over the CFG of Engine.restart (budget test dominates launch with the right arithmetic, launch "
@@ -612,6 +617,36 @@ def run(ctx) -> None:
         ok = c3.exit.id not in r
         ctx.ob("C12.R6-refusals", x.ast, ok, "restart after shutdown raises" if ok else
                "restart after shutdown returns normally instead of raising", construct="isShutdown => raise")
+    # the decision takes time (a restart hook may run for long): the relaunch is gated by a test of the engine's shutdown flag that
+    # comes AFTER the hook was called - a component that was given its final state in that window must not get a new task
+    er_ = eng.func("Engine.restart")
+    c_er = CFG(er_)
+    hook_calls = [n for n in c_er.nodes if n.ast is not None and n.kind in ("stmt", "test") and any(
+        isinstance(c, ast.Call) and isinstance(c.func, ast.Name) and any(k.arg == "exitReason" for k in c.keywords) for c in own_calls(n.ast))]
+    relaunch = match.nodes_calling(c_er, lambda c: call_name(c) == "self.run")
+    ctx.require(bool(hook_calls) and bool(relaunch), "anchor missing: the restart hook call / self.run() in Engine.restart")
+    sd_tests = match.test_nodes(c_er, lambda t: match.polarity(t, lambda e: isinstance(e, ast.Attribute) and e.attr in ("isShutdown", "_shutdown")
+                                                                  and isinstance(e.value, ast.Name) and e.value.id == "self"))
+    for rl in relaunch:
+        # from the hook call to the relaunch: every path passes the 'not shut down' side of such a test, or a statement that a
+        # shut-down engine reaches only through the test's T side and that forces a refusing context
+        gated = False
+        for (tn, lab) in sd_tests:
+            t_side = [m_ for (m_, l2) in tn.succ if l2 == lab]
+            refusing = [n for n in c_er.nodes if n.kind == "stmt" and isinstance(n.ast, ast.Assign) and isinstance(n.ast.value, ast.Subscript)
+                        and isinstance(n.ast.value.slice, ast.Constant) and n.ast.value.slice.value in ("RestartContextRestartNotPossible", "RestartContextRestartConditionsNotMet")
+                        and n.id in c_er.reach(t_side, blocked=[tn])]
+            # the test follows the hook on every path hook -> relaunch, and its T side (shut down) forces a refusing context
+            after_hook = all(not _reaches_without(c_er, h, rl, tn) for h in hook_calls)
+            forces = bool(refusing) and all(m_.id in {r_.id for r_ in refusing} or c_er.every_path_from_passes(m_, refusing, exits=[rl]) or m_ in refusing for m_ in t_side)
+            direct = match.only_via_edges(c_er, rl, [(tn, match.other(lab))])
+            if after_hook and (forces or direct):
+                gated = True
+        ctx.ob("C12.R6-refusals", rl.ast, gated,
+               "the relaunch is decided after a test of the shutdown flag that follows the hook" if gated else
+               "Engine.restart launches the new task without looking at the shutdown flag after the restart hook returned: a component that is "
+               "given its final state while the hook runs (stage teardown, finish(SHUTDOWN)) still gets a task started, which nothing stops",
+               construct="Engine.restart: self.run() <- not shut down after the hook")
     rr = eng.func("RepeatingEngine.restart")
     ctx.analysed(rr)
     c4 = CFG(rr)
